@@ -12,67 +12,64 @@
    [reach matches tr s]: s is reached by the history tr of atomic actions
      LArrive (transport), LRead / LFan order / LPush / LNext (socket reader: read, take msg_senders and fix the iteration
      order, one broadcast_direct, release), LAddStart / LAddCheck / LAddSubs / LAddSender (add_match for a new stream),
-     LUnfiltered (MessageStream::from(conn)), LPoll (the stream is polled once), LDrop (Drop) and LDropStart (async_drop): the receiver is released
-     and a remove_match call begins, LTaskSubs / LTaskSender are its two steps; LClone, LSetCap.  (LDropSubs / LDropSender: the pre-fix
+     LUnfiltered (MessageStream::from(conn)), LPoll (the stream is polled once), LClone (the clone shares the rule: [arcs s] lists, per shared rule, the
+     streams holding it), LDrop (Drop) and LDropStart (async_drop): the receiver is released and — if this was the last holder of
+     the shared rule — a remove_match call begins, LTaskSubs / LTaskSender are its two steps; LSetCap.  (LDropSubs / LDropSender: the pre-fix
      async_drop, never enabled any more, see C20_no_async_drop_in_progress.)
    The history IS the scheduler, the application, the peer and the transport: nothing else restricts the interleaving, the
    number of streams or rules, or the capacities.  [exec] = the executable replay used by the correspondence check. *)
-From ZV Require Import Base.Bytes Base.Res C19.Broadcast C20.Model C20.Steps C20.Inv C20.Proofs C20.Progress C20.Share C20.Refute C20.Main.
+From ZV Require Import Base.Bytes Base.Res C19.Broadcast C20.Model C20.Steps C20.Inv C20.Proofs C20.Count C20.Arcs C20.Progress C20.Share C20.Examples C20.Main.
 
-(* ------------------------------------------------------------------ the full statement (what the property asks for) *)
+(* No exception class is left for C20: the three defects found on the way (add_match race 3703ee13, async_drop deadlock 90a1ccff,
+   uncounted clones 3c4a83a4) are repaired in the code and the model follows the repaired code. *)
+
+(* ------------------------------------------------------------------ delivery, at full strength *)
 (* every stream has, at every moment, yielded + still queued = exactly the messages accepted by its rule among those decided for
-   its channel since it subscribed, in order of arrival, each once *)
-Definition C20_full_statement : Prop :=
-  forall matches tr s sid st, reach matches tr s ->
-    lookup (streams s) sid = Some st -> reader s <> RStopped ->
-    msgs (s_got st) ++ msgs (unread (chan_at s (s_ch st)) sid) =
-    filter (accepts matches (skey st)) (skipn (s_from st) (firstn (seen s (s_ch st)) (incoming s))).
-
-(* the decidable class of histories in which the code as it is falls short (known_findings/C20.jsonl) *)
-Definition Known_C20 (tr : list label) : bool := has_clone tr.                                  (* clone_uncounted *)
-
-(* ------------------------------------------------------------------ delivery *)
-(* for every stream whose channel is registered in msg_senders under the stream's own key — cloned or not *)
+   its channel since it subscribed, in order of arrival, each once — under every interleaving, clones included *)
 Theorem C20_delivery : forall matches tr s sid st, reach matches tr s ->
+  lookup (streams s) sid = Some st -> reader s <> RStopped ->
+  msgs (s_got st) ++ msgs (unread (chan_at s (s_ch st)) sid) =
+  filter (accepts matches (skey st)) (skipn (s_from st) (firstn (seen s (s_ch st)) (incoming s))).
+Proof. exact delivery_full. Qed.
+Print Assumptions C20_delivery.
+
+(* the same for a registered stream even after the reader has failed (what is queued is still delivered) *)
+Theorem C20_delivery_registered : forall matches tr s sid st, reach matches tr s ->
   lookup (streams s) sid = Some st -> In (skey st, s_ch st) (senders s) ->
   msgs (s_got st) ++ msgs (unread (chan_at s (s_ch st)) sid) =
   filter (accepts matches (skey st)) (skipn (s_from st) (firstn (seen s (s_ch st)) (incoming s))).
 Proof. exact delivery. Qed.
-Print Assumptions C20_delivery.
-
-(* the full statement, outside the known class *)
-Theorem C20_delivery_partial : forall matches tr s sid st, reach matches tr s -> Known_C20 tr = false ->
-  lookup (streams s) sid = Some st -> reader s <> RStopped ->
-  msgs (s_got st) ++ msgs (unread (chan_at s (s_ch st)) sid) =
-  filter (accepts matches (skey st)) (skipn (s_from st) (firstn (seen s (s_ch st)) (incoming s))).
-Proof. exact delivery_partial. Qed.
-Print Assumptions C20_delivery_partial.
+Print Assumptions C20_delivery_registered.
 
 (* when the reader is idle and the stream has been polled to the end: it has yielded exactly the matching messages read from
    the socket since it subscribed — none missing, none twice, none foreign, in order *)
-Theorem C20_delivery_quiescent : forall matches tr s sid st, reach matches tr s -> Known_C20 tr = false ->
+Theorem C20_delivery_quiescent : forall matches tr s sid st, reach matches tr s ->
   lookup (streams s) sid = Some st -> reader s = RIdle -> unread (chan_at s (s_ch st)) sid = [] ->
   msgs (s_got st) = filter (accepts matches (skey st)) (skipn (s_from st) (incoming s)).
-Proof. exact delivery_partial_quiescent. Qed.
+Proof. exact delivery_full_quiescent. Qed.
 Print Assumptions C20_delivery_quiescent.
 
 (* the registration itself: a stream is in msg_senders under its own key until the reader fails *)
-Theorem C20_registered : forall matches tr s sid st, reach matches tr s -> Known_C20 tr = false ->
+Theorem C20_registered : forall matches tr s sid st, reach matches tr s ->
   lookup (streams s) sid = Some st -> In (skey st, s_ch st) (senders s) \/ reader s = RStopped.
 Proof. exact registered. Qed.
 Print Assumptions C20_registered.
 
-(* ------------------------------------------------------------------ sharing *)
-(* the reference count of a rule is the number of its holders (streams created for it, remove_match calls — queued by Drop or
-   started by async_drop — that have not taken `subscriptions` yet, the add_match call that is creating it); a rule without
-   entry has no holder; all streams of a rule read the one channel of its entry *)
-Theorem C20_share_partial : forall matches tr s, reach matches tr s -> Known_C20 tr = false ->
-  (forall r, match lookup (subs s) r with Some e => e_ref e = holders_of s r | None => holders_of s r = 0 end) /\
-  (forall sid st r e, lookup (streams s) sid = Some st -> s_rule st = Some r -> lookup (subs s) r = Some e -> s_ch st = e_ch e).
-Proof. exact share_partial. Qed.
-Print Assumptions C20_share_partial.
+(* ------------------------------------------------------------------ sharing, at full strength *)
+(* the reference count of a rule is the number of its holders: the shared rules (one per for_match_rule stream, held jointly by the
+   stream and its clones) + the remove_match calls that have not taken `subscriptions` yet + the add_match call that is creating it;
+   a rule without entry has no holder; all streams of a rule read the one channel of its entry; every stream made for a rule holds
+   a shared rule of that rule, and whoever is listed as holder of a shared rule is such a stream *)
+Theorem C20_share : forall matches tr s, reach matches tr s ->
+  (forall r, match lookup (subs s) r with Some e => e_ref e = holders s r | None => holders s r = 0 end) /\
+  (forall sid st r e, lookup (streams s) sid = Some st -> s_rule st = Some r -> lookup (subs s) r = Some e -> s_ch st = e_ch e) /\
+  (forall sid st r, lookup (streams s) sid = Some st -> s_rule st = Some r ->
+     exists i ms, idx_of (arcs s) sid = Some i /\ nth_error (arcs s) i = Some (r, ms)) /\
+  (forall r ms sid, In (r, ms) (arcs s) -> In sid ms -> exists st, lookup (streams s) sid = Some st /\ s_rule st = Some r).
+Proof. exact share_full. Qed.
+Print Assumptions C20_share.
 
-(* ------------------------------------------------------------------ back-pressure, at full strength (since fix 90a1ccff) *)
+(* ------------------------------------------------------------------ back-pressure, at full strength *)
 (* a reader blocked on a full queue is blocked behind a stream that the application can poll — in every reachable state *)
 Theorem C20_progress : forall matches tr s it c todo, reach matches tr s ->
   reader s = RPush it (c :: todo) -> try_push it (chan_at s c) = PFull ->
@@ -87,30 +84,34 @@ Theorem C20_no_async_drop_in_progress : forall matches tr s sid, reach matches t
 Proof. exact no_async_drop. Qed.
 Print Assumptions C20_no_async_drop_in_progress.
 
-(* ------------------------------------------------------------------ the refutations (clone) *)
-Theorem C20_clone_uncounted_refuted : ~ C20_full_statement.
-Proof. exact delivery_full_refuted. Qed.
-Print Assumptions C20_clone_uncounted_refuted.
-
-Theorem C20_clone_count_refuted :
-  exists tr s r e, reach all_match tr s /\ lookup (subs s) r = Some e /\ e_ref e <> holders_of s r.
-Proof. exact share_full_refuted. Qed.
-Print Assumptions C20_clone_count_refuted.
-
 (* ------------------------------------------------------------------ the replay stays inside the relation *)
 Theorem C20_run_sound : forall matches tr s, exec matches tr init = Some s -> reach matches tr s.
 Proof. exact exec_reach. Qed.
 Print Assumptions C20_run_sound.
 
-(* ------------------------------------------------------------------ concrete instances (hypotheses are satisfiable, the
-   conclusions say something): two streams on one rule, three messages, the second stream subscribes after two were decided *)
+(* ------------------------------------------------------------------ concrete instances *)
+(* two streams on one rule, three messages, the second stream subscribes after two were decided *)
 Example C20_example :
-  reach by_member ex_trace ex_state /\ Known_C20 ex_trace = false /\ reader ex_state = RIdle /\
+  reach by_member ex_trace ex_state /\ reader ex_state = RIdle /\
   incoming ex_state = [sg 1 1; sg 2 0; sg 3 1] /\
   (exists st, lookup (streams ex_state) 0 = Some st /\ s_from st = 0 /\ s_got st = [IMsg (sg 1 1); IMsg (sg 3 1)]) /\
   (exists st, lookup (streams ex_state) 1 = Some st /\ s_from st = 2 /\ s_got st = [IMsg (sg 3 1)]) /\
-  lookup (subs ex_state) 1 = Some {| e_ref := 2; e_ch := 2 |}.
+  lookup (subs ex_state) 1 = Some {| e_ref := 2; e_ch := 2 |} /\ holders ex_state 1 = 2.
 Proof. exact ex_facts. Qed.
+
+(* the former witness of clone_uncounted (before fix 3c4a83a4): the clone is dropped, the original still holds the shared rule,
+   stays registered and receives the next matching message ... *)
+Example C20_clone_dropped_original_receives :
+  reach all_match clone_trace clone_state /\
+  tasks clone_state = [] /\ lookup (subs clone_state) 0 = Some {| e_ref := 1; e_ch := 2 |} /\ In (KRule 0, 2) (senders clone_state) /\
+  arcs clone_state = [(0, [0])] /\ lookup (streams clone_state) 1 = None /\
+  exists st, lookup (streams clone_state) 0 = Some st /\ s_got st = [IMsg (sig 1)] /\ incoming clone_state = [sig 1].
+Proof. exact clone_receives. Qed.
+(* ... and when the original goes as well, the subscription is given back *)
+Example C20_last_clone_gives_back :
+  exists s, exec all_match (clone_trace ++ [LDrop 0; LTaskSubs 0; LTaskSender 0]) init = Some s /\
+            subs s = [] /\ arcs s = [] /\ tasks s = [] /\ streams s = [] /\ senders s = [(KAll, 0); (KRet, 1); (KErr, 1)].
+Proof. exact clone_last_gives_back. Qed.
 
 (* the history that ended in the async_drop deadlock before fix 90a1ccff now runs to the end *)
 Example C20_former_deadlock_runs :
